@@ -130,6 +130,9 @@ func runC03(c *Ctx) {
 	// clause (2) of the property rests on the static route lookup itself: fixed precedence and anchored,
 	// escaped patterns (the C18 rules) are necessary conditions of "the static route configured for the To host"
 	c18Precedence(c)
+	// the Route hop is the first entry of what is left after the proxy's own entry was consumed: the consumption removes
+	// exactly one entry and nothing else of the route set (pop structure, shared with C13/C17)
+	checkPopOne(c, "destination", routePop)
 	c18Pattern(c)
 	c18Table(c)
 	// "the next hop" includes its transport: a hop named with transport=tcp is not sent a datagram (shared with C02)
